@@ -72,6 +72,101 @@ CHECKS["C02"] = dict(
          "Savitzky-Golay centre midway between bins may fall either way; three bandwidths per operator, grids up to "
          "33 bins.")
 
+CHECKS["C01"] = dict(
+    engine="E2", section="4/C01",
+    text="For each (three-component window, processing kind) root - 9 frequency-domain names, single_azimuth and its "
+         "alias x 7 azimuths, RotDpp x 4 percentiles x 3 azimuth sets, azimuthal x 3 azimuth sets, diffuse field x 1-3 "
+         "windows - every configuration of {14 operator/bandwidth pairs, 4 Tukey widths, 3 centre-frequency sets, 4 "
+         "FFT requests} within 2 deviations of the default (quick) or the full product on the no-padding path "
+         "(thorough) is run through the real process() and compared (1e-9) with an independent pipeline: Tukey from "
+         "its definition -> explicit zero-padded DFT matrix -> closed-form combination -> reference kernel matrix -> "
+         "ratio; plus never-truncating FFT length, common-factor invariance, horizontal/vertical scaling, the "
+         "closed-form flat value for proportional components and bit-identical aliases.",
+    note="The FFT length is read back from settings.fft_settings['n'] (required >= window length); configurations "
+         "whose reference smoothed spectra are not strictly positive, centres that are knife-edge for a kernel support "
+         "and centres whose smoothed spectrum is below 1e-6 of the largest raw amplitude (rounding noise) are not "
+         "compared; padded-FFT cases only for one kind per formula on the first window.")
+CHECKS["C07"] = dict(
+    engine="E2", section="4/C07",
+    text="Every reader (miniSEED in one or three files, SAC little/big/mixed endian, GCF, SAF, MiniShark, PEER) is run on "
+         "files generated from known samples (distinct ramps per channel, int32 extremes, float32-inexact values); for "
+         "each file configuration all 6 trace/file orders and every read option within k deviations of the default "
+         "are executed: ns/ew/vt must equal the written samples (float32 for SAF/MiniShark after gain*conversion), dt "
+         "the file's time step, degrees_from_north the explicit argument mod 360 else the file's metadata else 0; 61 "
+         "malformed variants must raise; read() is compared element-wise with read_single over all lists of 1-3 "
+         "recordings and all 9 None/value/list argument shapes.",
+    note="Binary formats are written and parsed by obspy (trusted); the MiniShark layout is inferred from the reader "
+         "(example file is empty); SAC dt compared at 1e-4 (float32 header); for PEER codes equidistant from north "
+         "either horizontal may be north but ns and ew must be different files; k=2 quick, k=3-4 / full product "
+         "thorough.")
+CHECKS["C10"] = dict(
+    engine="E2", section="4/C10",
+    text="For 7 sampling rates (incl. 75, 150, 300 Hz), 6 decimal window lengths and 12 record lengths from k-1 to 5k+1 "
+         "samples every window returned by TimeSeries.split, SeismicRecording3C.split and preprocess is located in a "
+         "record with pairwise distinct samples and judged against an exact-rational tiling reference (start j*k, k+1 "
+         "samples, one shared boundary sample, bit-identical samples, tail < one window, refusal of too-long windows, "
+         "identical tiling of the three components); over the product of 4 corner pairs, 4 detrend modes, 3 "
+         "orientations and 1 or 3 recordings preprocess equals bit for bit orient -> whole-record Butterworth -> split "
+         "-> per-window detrend assembled from public primitives, the two observably wrong orders are shown to "
+         "differ, and zero phase is established by time-reversal symmetry.",
+    note="dt is the nearest double of 1/rate; the order oracle trusts the filter/detrend primitives and judges split "
+         "separately; orientation placement is only checked to 1e-9 (not observable); for a record of exactly k "
+         "samples both refusing and one short window are accepted.")
+CHECKS["C13"] = dict(
+    engine="E2", section="4/C13",
+    text="The real sta_lta_window_rejection and maximum_value_window_rejection are run on every window list of length "
+         "1-4 over eight envelope/scale window types with all component tuples, sta/lta lengths, two time steps, a 4x4 "
+         "limit grid or ten thresholds, three amplitude factors and none / traditional / two-azimuth HVSR objects: the "
+         "returned list must be an identity- and order-preserving sub-list, clear windows must match an independent "
+         "STA/LTA reference, both masks on every azimuth must equal the selection, and the decision of a window must "
+         "equal that of the one-window list, be scale invariant, monotone under widening limits and the conjunction "
+         "of the single-component decisions.",
+    note="Decisions are compared with the reference only where all plausible sample-count readings agree with margin "
+         "1e-6 (0.01-0.4 % unclear); ties within 1e-9 undecided; both readings of 'overall largest' accepted for the "
+         "normalised threshold; deviation-bounded per list (full product for one-window lists).")
+CHECKS["C14"] = dict(
+    engine="E2", section="4/C14",
+    text="HvsrSpatial.spatial_weights/bounded_voronoi are run on every 4-, 5- and 6-subset of a 3x3 lattice (jittered "
+         "and regular), 0-2 outside sensors, four convex-hull boundaries, every rotation/reversal of sensor order, "
+         "translations to 1e4 extents, scales 1e-3..1e3, plus (nearly) collinear arrays, and compared with exact "
+         "rational half-plane clipping (1e-9); montecarlo_fn is run for all four distribution combinations x "
+         "generator menus x n_realizations x enumerated PCG64 seeds with mean/std recomputed from the returned "
+         "realisations by math.fsum, weight-scale invariance, bitwise reproducibility and the zero-std closed form.",
+    note="Two genuine defects on (nearly) collinear arrays are recorded in known_findings.json and announced as "
+         "KNOWN-FINDING; sensors strictly inside or outside the hull; index order free; layouts beyond 6 interior "
+         "lattice sensors and unseeded generators not explored.")
+CHECKS["C16"] = dict(
+    engine="E2", section="4/C16",
+    text="Each of the 3 reliability and 6 clarity verdicts of hvsrpy.sesame is compared with a pure-Python transcription "
+         "of the SESAME 2004 criteria and epsilon/theta table over six grids, f0 in {0.1..3 Hz} with the four band "
+         "edges exactly on a sample, peak heights/flanks/second peaks, 16 std curves, window lengths/counts, sigma_f, "
+         "nine search-range kinds and verbosity 0/1/2 (equal verdicts required); criterion ii monotone in length and "
+         "count, criterion v monotone in sigma_f; a crash where the guideline gives a verdict is a violation.",
+    note="f0 is the highest interior local maximum of the curve cut to the samples nearest the range limits; table rows "
+         "half-open; ties (samples exactly on interval limits, values within 1e-9 of a threshold) accepted either way; "
+         "with a search range a verdict may agree with either the trimmed- or whole-curve reading.")
+CHECKS["C17"] = dict(
+    engine="E2", section="4/C17",
+    text="PSD, diffuse-field and PSD-preprocessing paths are executed on every configuration of two bounded spaces "
+         "(quick: 3 deviations; thorough: full product): per component the one-sided PSD summed over 0<f<Nyquist must "
+         "equal the time-domain mean square of the tapered window minus the 0 Hz and Nyquist terms over the taper's "
+         "mean square (computed without any FFT); PSD scales with the square of the amplitude; multi-window PSD is the "
+         "mean of single-window PSDs; smoothed PSDs equal the reference kernels applied to the unsmoothed PSD; diffuse "
+         "field equals sqrt(smooth(Pns+Pew)/smooth(Pvt)); differentiation and flat/pole-zero response removal are "
+         "compared with analytic images of window-periodic sinusoids or an explicit DFT.",
+    note="FFT length as reported back by hvsrpy (>= L); Parseval constrains band sums, per-bin values are left to C01; "
+         "Savitzky-Golay cases with undefined reference skipped and counted.")
+CHECKS["C18"] = dict(
+    engine="E1", section="4/C18",
+    text="BFS (depth 2 quick / 3 thorough) over a menu of 20 operations (8 trims, 3 filters, 2 detrends, 3 tapers, 3 "
+         "re-orientations, split->first window) on 18 real SeismicRecording3C roots; in every distinct state save->load "
+         "must restore every sample bit for bit plus dt, orientation mod 360 and metadata content; every copy route "
+         "must share no memory with its source and writes must stay invisible; 13 trim intervals on both trim methods "
+         "must keep exactly samples nearest(start)..nearest(end) by exact integer arithmetic or raise IndexError with "
+         "the samples untouched.",
+    note="String metadata keys and finite JSON values; independence demanded of sample storage only; exact half-way "
+         "times are knife-edge; alphabets and depth as stated.")
+
 NOT_APPLICABLE = []
 
 PENDING = ["C01", "C02", "C03", "C04", "C05", "C06", "C07", "C09", "C10", "C11", "C12", "C13",
